@@ -95,12 +95,48 @@ def prog_cases(seed, n, tier):
     ]
     return cases
 
+ARG_SHAPES = ["1", "(1,2)", "f(a)", "\"s\"", "-3", "(1,)", "f((1,2),b)", "(a,(b,c))", "f(-1,g(2))", "()"]
+ARG_TEMPLATES = [
+    "#program initial. &tel {{ {A} }}.",
+    "#program always. {{b}}. #program initial. &tel {{ > {A} | b }}.",
+    "#program always. {{c}}. &tel {{ {A} >? b }} :- c.",
+    "#program initial. &tel {{ 2 > {A} }}.",
+    "#program initial. &tel {{ ~ {A} | > {A} }}.",
+    "#program initial. &tel {{ > {A} }}. #program always. w :- {A}.",
+    "#program initial. &tel {{ >* ({A} | ~ {A}) }}. #program always. :- {A}, '{A}.",
+]
+
+def _argshape_chunk(args):
+    """a head formula over the atom p(ARG) has the answer sets of the same formula over the propositional atom pp, renamed"""
+    (idx,) = args
+    import re
+    arg = ARG_SHAPES[idx]
+    fails, cnt = [], 0
+    for tpl in ARG_TEMPLATES:
+        t1 = tpl.replace("'{A}", "'p(" + arg + ")").format(A="p(" + arg + ")")
+        t2 = tpl.replace("'{A}", "'pp").format(A="pp")
+        r1, r2 = oracles.impl_models(t1, 2, dedup=True), oracles.impl_models(t2, 2, dedup=True)
+        cnt += 1
+        if "Timeout" in (r1[1], r2[1]):
+            continue
+        if r1[0] == "ok":
+            ren = lambda m: tuple(sorted(re.sub(r"^p\(.*\)@", "pp@", a) for a in m))
+            r1 = ("ok", {h: sorted(set(ren(m) for m in ms)) for h, ms in r1[1].items()})
+        if r1 != r2:
+            fails.append({"kind": "argument-shape", "text": t1 + "\n%%% versus the same program over a propositional atom\n" + t2,
+                          "input": [t1, t2], "with_arguments": str(r1)[:300], "propositional": str(r2)[:300]})
+    return cnt, fails
+
 def search(ctx, deep):
     n = (100 if ctx.tier == "quick" else 1500) * (3 if deep else 1)
     H = 2
     cases = prog_cases(ctx.seed * 43 + 6, n, ctx.tier)
     fails = rules_check.run_search(ctx, cases, H)
-    return {"programs": len(cases), "horizons": "0..{}".format(H), "oracle": "telspec tsm (brute-force THT equilibrium models)",
+    nshape = 0
+    for c, f in par.pmap(_argshape_chunk, [(i,) for i in range(len(ARG_SHAPES))], ctx.jobs):
+        nshape += c
+        fails += f
+    return {"programs": len(cases), "argument_shape_programs": nshape, "horizons": "0..{}".format(H), "oracle": "telspec tsm (brute-force THT equilibrium models)",
             "sample": {"program": tl.render_prog([c for c in cases if not isinstance(c, tuple)][0])}}, fails
 
 def replay(obj):
